@@ -1372,7 +1372,7 @@ struct W1
       std::uint64_t h = fnv_str (1469598103934665603ULL, tr.record);
       if (! cur.secondary)
       {
-        if (opt.witnesses >= 2 && tr.clean_pre)
+        if ((opt.witnesses >= 2 || opt.unq_depth > 0) && tr.clean_pre)
         {
           first_rec[fnv_str (1469598103934665603ULL, key)] = h;
           if (opt.verbose)
@@ -1409,6 +1409,61 @@ struct W1
       for (int k = 0; k < EV_NKINDS; ++k)
         line += itos (tr.ev_counts[k]) + ",";
       st.info_digest = fnv_str (st.info_digest, line);
+    }
+
+    // Un-quotiented cross-check of the (size, capacity) abstraction: every history up to a depth
+    // bound over a reduced alphabet is executed without any state merging, and each step must give
+    // the record stored for (shape, operation) in the quotient graph.
+    void unquotiented (History& h, int size, int cap, int depth)
+    {
+      if (depth == 0 || time_up () || harness_error)
+        return;
+      std::vector<Op> ops;
+      ops.push_back (Op (OP_EMPL_B, 0, 0, -1, 0));
+      ops.push_back (Op (OP_INS_M, 0, 0, -1, 0));
+      ops.push_back (Op (OP_EMPL, size / 2, 0, -1, 0));
+      if (size > 0)
+      {
+        ops.push_back (Op (OP_POP, 0, 0, -1, 0));
+        ops.push_back (Op (OP_ERASE, 0, 0, -1, 0));
+        ops.push_back (Op (OP_ERASE_R, 0, (size + 1) / 2, -1, 0));
+      }
+      if (cap + 1 <= opt.R) ops.push_back (Op (OP_RESERVE, 0, cap + 1, -1, 0));
+      ops.push_back (Op (OP_SHRINK, 0, 0, -1, 0));
+      ops.push_back (Op (OP_CLEAR, 0, 0, -1, 0));
+      if (size + 2 <= opt.S + 2) ops.push_back (Op (OP_RESIZE, 0, size + 2, -1, 0));
+      ops.push_back (Op (OP_ASSIGN_RANGE, 0, 3, -1, IT_MV_FWD));
+      ops.push_back (Op (OP_APPEND_RANGE, 0, 2, -1, IT_MV_STREAM));
+      ops.push_back (Op (OP_INS_RANGE, size > 0 ? 1 : 0, 2, -1, IT_MV_PTR));
+      for (std::size_t k = 0; k < ops.size (); ++k)
+      {
+        TrialResult r = run_trial (h, ops[k], size, cap);
+        if (harness_error) return;
+        if (r.skipped) continue;
+        ++st.unq_histories;
+        if (r.clean_pre && ! r.violated)
+        {
+          std::string key = itos (key_of (size, cap)) + "|" + op_to_token (ops[k]);
+          std::map<std::uint64_t, std::uint64_t>::const_iterator it = first_rec.find (fnv_str (1469598103934665603ULL, key));
+          if (it != first_rec.end ())
+          {
+            ++st.witnesses_checked;
+            if (it->second != fnv_str (1469598103934665603ULL, r.record))
+            {
+              Viol v;
+              v.props = "C01,C06";
+              v.oracle = "history-dependence.unquotiented";
+              v.detail = "the result of an operation depends on the history that produced the (size, capacity) shape: " + r.record;
+              sink.add (config_name (), h, ops[k], v);
+            }
+          }
+        }
+        if (r.violated || r.post_size > opt.S || r.post_cap > opt.CAPB)
+          continue;
+        h.push_back (ops[k]);
+        unquotiented (h, r.post_size, r.post_cap, depth - 1);
+        h.pop_back ();
+      }
     }
 
     bool time_up ()
@@ -1511,6 +1566,11 @@ struct W1
           }
         }
       }
+      if (opt.unq_depth > 0 && ! time_up ())
+      {
+        History h;
+        unquotiented (h, 0, static_cast<int> (N), opt.unq_depth);
+      }
       st.states = static_cast<long> (states.size ());
       st.exhaustive = ! stopped && head >= states.size ();
       st.wall = now_s () - t0;
@@ -1548,11 +1608,11 @@ struct W1
                     opt.S, opt.CAPB, opt.K, opt.L, opt.R, opt.faults, opt.fault_kinds, opt.focus);
       std::fprintf (f, " \"stats\":{\"states\":%ld,\"transitions\":%ld,\"fault_trials\":%ld,\"dbl_fault_trials\":%ld,"
                        "\"boundary_edges\":%ld,\"replays\":%ld,\"post_fault_states\":%ld,\"distinct_outcomes\":%ld,"
-                       "\"crashes\":%ld,\"skipped_crash_class\":%ld,\"witnesses_checked\":%ld,\"wall\":%.3f},\n",
+                       "\"crashes\":%ld,\"skipped_crash_class\":%ld,\"witnesses_checked\":%ld,\"unq_histories\":%ld,\"wall\":%.3f},\n",
                     ex.st.states, ex.st.transitions, ex.st.fault_trials, ex.st.dbl_fault_trials,
                     ex.st.boundary_edges, ex.st.replays, ex.st.post_fault_states,
                     static_cast<long> (ex.st.outcomes.size ()), static_cast<long> (crashes.size ()),
-                    ex.st.skipped_crash_class, ex.st.witnesses_checked, ex.st.wall);
+                    ex.st.skipped_crash_class, ex.st.witnesses_checked, ex.st.unq_histories, ex.st.wall);
       std::fprintf (f, " \"exhaustive\":%s,\"digest\":\"%016llx\",\"info_digest\":\"%016llx\",\n",
                     ex.st.exhaustive ? "true" : "false",
                     static_cast<unsigned long long> (ex.st.digest),
